@@ -106,6 +106,7 @@ type pathState struct {
 	ndec    int
 	// ghost counters for harnesses
 	loopCount map[interface{}]int
+	dom       map[*Term]*varDomain
 }
 
 // Limits of one exploration.
@@ -156,6 +157,7 @@ func (m *Machine) addPC(c *Term) {
 	}
 	m.ps.pcSet[c] = true
 	m.ps.pc = append(m.ps.pc, c)
+	m.noteConjunct(c)
 	m.solver.Assert(c)
 }
 
@@ -174,6 +176,7 @@ func (m *Machine) syntactic(c *Term) (val, known bool) {
 }
 
 func (m *Machine) checkWith(c *Term) SatResult {
+	m.solver.emit(c) // definitions live in the run scope, not the query scope
 	m.solver.Push()
 	m.solver.Assert(c)
 	r := m.solver.Check()
@@ -191,6 +194,13 @@ func (m *Machine) Branch(c *Term) bool {
 		// implied: not recorded (re-execution decides it the same way)
 		return v
 	}
+	dd := m.domainDecide(c)
+	switch dd {
+	case 1:
+		return true
+	case 0:
+		return false
+	}
 	if !m.live() {
 		v := m.nextReplay(dBranch) == 1
 		if v {
@@ -201,18 +211,25 @@ func (m *Machine) Branch(c *Term) bool {
 		return v
 	}
 	nc := m.tt.Not(c)
-	rt := m.checkWith(c)
-	var rf SatResult
-	if rt == Unsat {
-		rf = Sat // PC is satisfiable, so the other side is
+	var rt, rf SatResult
+	if dd == 2 {
+		rt, rf = Sat, Sat
 	} else {
-		rf = m.checkWith(nc)
+		rt = m.checkWith(c)
+		if rt == Unsat {
+			rf = Sat // PC is satisfiable, so the other side is
+		} else {
+			rf = m.checkWith(nc)
+		}
 	}
 	if rt == Unknown || rf == Unknown {
 		m.inconclusive++
 	}
 	switch {
 	case rt != Unsat && rf != Unsat:
+		if m.forkSites != nil && m.lastIf != nil {
+			m.forkSites[m.prog.Fset.Position(m.lastIf.Cond.Pos()).String()+" in "+m.lastIf.Parent().Name()]++
+		}
 		m.forkSibling(dBranch, 0)
 		m.record(dBranch, 1)
 		m.addPC(c)
@@ -262,6 +279,15 @@ func (m *Machine) Assume(c *Term) {
 		}
 		return
 	}
+	switch m.domainDecide(c) {
+	case 1:
+		return
+	case 0:
+		panic(pathAbort{abInfeasible, "assume contradicts path condition"})
+	case 2:
+		m.addPC(c)
+		return
+	}
 	if !m.live() {
 		m.addPC(c)
 		return
@@ -279,6 +305,14 @@ func (m *Machine) Assume(c *Term) {
 // model returns the values of all inputs created so far under PC ∧ extra.
 // The solver must be able to satisfy it (caller just checked).
 func (m *Machine) modelScript(extra *Term) ([]InputRec, bool) {
+	if extra != nil {
+		m.solver.emit(extra)
+	}
+	for _, in := range m.ps.inputs {
+		if in.term != nil {
+			m.solver.emit(in.term)
+		}
+	}
 	m.solver.Push()
 	defer m.solver.Pop()
 	if extra != nil {
@@ -371,9 +405,11 @@ func (m *Machine) Reach(label string) {
 		return
 	}
 	m.ps.reached[label] = true
-	if m.live() && m.limits.WantWitness[label] {
-		if script, ok := m.modelScript(nil); ok {
-			m.ps.witness[label] = script
+	if m.live() && m.limits.WantWitness[label] && m.witnessDone != nil {
+		if _, done := m.witnessDone.LoadOrStore(m.harness+"/"+label, true); !done {
+			if script, ok := m.modelScript(nil); ok {
+				m.ps.witness[label] = script
+			}
 		}
 	}
 }
@@ -495,6 +531,7 @@ func (m *Machine) RunPath(entry string, prefix []decision) (res PathResult) {
 		reached:   make(map[string]bool),
 		witness:   make(map[string][]InputRec),
 		loopCount: make(map[interface{}]int),
+		dom:       make(map[*Term]*varDomain),
 	}
 	m.harness = entry
 	m.clock = nil
